@@ -197,8 +197,14 @@ def build_doc(spec):
   out = ap(['BulkAddRecord', '_grist_ACLResources', [None, None, None],
             {'tableId': ['*', 'T', 'C'], 'colIds': ['*', spec['colids']['T'], spec['colids']['C']]}])
   star, res_t, res_c = out.retValues[0]
-  ap(['AddRecord', '_grist_ACLRules', None, {'resource': star, 'userAttributes': json.dumps(USER_ATTR)}])
+  # rules are created in the order of the list, so list order = row-id order; an item {'attr': {...}} is a rule
+  # that defines a user attribute.  Specs without such items get the default attribute rule first.
+  if not any('attr' in r for r in spec['acl_rules']):
+    ap(['AddRecord', '_grist_ACLRules', None, {'resource': star, 'userAttributes': json.dumps(USER_ATTR)}])
   for r in spec['acl_rules']:
+    if 'attr' in r:
+      ap(['AddRecord', '_grist_ACLRules', None, {'resource': star, 'userAttributes': json.dumps(r['attr'])}])
+      continue
     res = res_t if r['table'] == 'T' else res_c
     if r.get('raw'):
       rid = ap(['AddRecord', '_grist_ACLRules', None, {'resource': res, 'aclFormula': ''}]).retValues[0]
